@@ -109,7 +109,7 @@ ENTRIES = dict((int(m.group(1)), m.group(2)) for m in re.finditer(r"\{\\f(\d+)\\
 ''', templates=True, timeout=T,
         body=r'''
     holes_reset()
-    out = TextContent._get_text_formatting(NS(size=size, font=font, color=None, background_color=None, format=None))
+    out = TextContent._get_text_formatting(NS.of(TextContent, size=size, font=font, color=None, background_color=None, format=None))
     m = re.fullmatch(r"\\fs(" + tpl.NUM + r")\{\\f(" + tpl.NUM + ")", out)
     if m is None:
         return False
